@@ -195,6 +195,14 @@ func findInlineNode(file *ast.File, comment *ast.Comment, fset *token.FileSet) (
 		}
 	}
 
+	// A comment that trails the package clause ("package p // @ignore CODE") is inline on that line:
+	// it must not be taken for a stand-alone comment before the first declaration
+	if file.Name != nil && commentPos > file.Name.End() && lineOf(file.Name.End()) == commentLine {
+		if fileContent := fset.File(commentPos); fileContent != nil {
+			return fileContent.LineStart(commentLine), comment.End(), true
+		}
+	}
+
 	// If no declaration found, not inline
 	if idx >= len(file.Decls) {
 		return 0, 0, false
